@@ -21,6 +21,11 @@ impl Errors {
         self
     }
 
+    #[cfg(feature = "verif_hooks")]
+    pub fn verif_messages(&self) -> Vec<String> {
+        self.collected.iter().map(|e| e.message.to_string()).collect()
+    }
+
     pub fn render(self) -> Option<TokenStream> {
         let errors = self.collected;
 
